@@ -367,9 +367,14 @@ func scratchBase() string {
 var c19QuickKinds = []int{0, 1, 2, 4, 6, 8, 9, 10, 12, 14, 15, 17, 18}
 
 // c19NameOrder: good files under names whose byte order differs from "natural", extension-less,
-// case-insensitive or numeric order: every subset of 4 of 18 names.
+// case-insensitive or numeric order: every subset of 4 of 22 names.
 var c19TrickyNames = []string{"snapshot.pb", "snapshot-2.pb", "snapshot (copy).pb", "snapshot.2.pb", "snapshot_3.pb", "Snapshot.pb", "snapshot.pb.1", "snapshot", "2.pb", "10.pb",
-	"caf\xe9-2.pb" /* not valid UTF-8 */, "\xff\xfe", "two\nlines.pb", " leading-space.pb", ".hidden.pb", "-dash.pb", "caf\u00e9-2.pb", strings.Repeat("long-name-", 24) + ".pb"}
+	"caf\xe9-2.pb" /* not valid UTF-8 */, "\xff\xfe", "two\nlines.pb", " leading-space.pb", ".hidden.pb", "-dash.pb", "caf\u00e9-2.pb", strings.Repeat("long-name-", 24) + ".pb",
+	// characters that mean something to shells, glob patterns and path cleaning - and nothing in a file name
+	"feed..pb", "..2023-11-14.pb", "z..", "br[ack]et.pb"}
+
+// c19DirNames: the directory itself may carry such characters ("" = the scratch directory as it is)
+var c19DirNames = []string{"", "feeds[2024]", "snap[1]*?", "back\\slash .."}
 
 func c19NameOrder(c *Ctx) {
 	var idx []int
@@ -385,6 +390,20 @@ func c19NameOrder(c *Ctx) {
 		harnessBug("mkdtemp: %v", err)
 	}
 	defer os.RemoveAll(dir)
+	dirName := ""
+	if idx[0] == 0 {
+		dirName = c19DirNames[c.Free("directory_name", len(c19DirNames))]
+	}
+	if dirName != "" {
+		dir = filepath.Join(dir, dirName)
+		if err := os.Mkdir(dir, 0755); err != nil {
+			harnessBug("mkdir: %v", err)
+		}
+		// a sibling whose name the pattern-reading of the directory name would match
+		os.Mkdir(filepath.Join(filepath.Dir(dir), "feeds2"), 0755)
+		os.WriteFile(filepath.Join(filepath.Dir(dir), "feeds2", "intruder.pb"), []byte{}, 0644)
+		c.Witness("directory_with_pattern_characters")
+	}
 	var names []string
 	// every file gets its own feed time so that the order is visible in the results
 	for k, j := range idx {
@@ -398,7 +417,7 @@ func c19NameOrder(c *Ctx) {
 	}
 	sorted := append([]string{}, names...)
 	sort.Strings(sorted)
-	c.Input(hash64(strings.Join(names, "|")), true, func() string { return fmt.Sprintf("files %q, expected order %q", names, sorted) })
+	c.Input(hash64(strings.Join(names, "|")+"/"+dirName), true, func() string { return fmt.Sprintf("directory %q files %q, expected order %q", dirName, names, sorted) })
 	var src *journal.DirectoryGtfsrtSource
 	if !guardSig(c, "NewDirectoryGtfsrtSource", func() { src, err = journal.NewDirectoryGtfsrtSource(dir) }) || err != nil {
 		c.Fail("source-construction-failed", "%v", err)
@@ -609,7 +628,7 @@ func init() {
 	register(&Check{
 		ID:    "C19",
 		Level: "fault_enumeration",
-		Rule: "every assignment of {absent, good1, good2, good3, empty, cut-in-header, cut-in-entity, cut-last-byte, corrupt, sub-directory, vanishes after listing, replaced by a directory after listing, symlink to a good file, dangling symlink, a valid feed encoded header-last, valid feeds ending in the bytes 0x0A / 0x0D, symlink to itself (ELOOP), unix socket (ENXIO)} to the names 10, 9, B, a, é (thorough: all 19 kinds on 5 names; quick: 13 kinds on the first 4 names) - x 2 creation orders, on a real temporary directory; plus every 4-subset of 18 file names (byte order differing from extension-less / natural / case-insensitive order; names that are not valid UTF-8, contain a newline, start with a blank, a dot or a dash, are 240 bytes long); plus runs of 1..520 bad entries in a row before / between / after good files; good files in a non-canonical field order (header last) and ending in the bytes 0x0A / 0x0D; plus 3-name directories replayed while the wall clock jumps 2 s before chosen Next calls (the source reports progress once per second); plus directories in which one of three good files is 70 KiB / 1 MiB / 4 MiB / 17 MiB large, at each position; " +
+		Rule: "every assignment of {absent, good1, good2, good3, empty, cut-in-header, cut-in-entity, cut-last-byte, corrupt, sub-directory, vanishes after listing, replaced by a directory after listing, symlink to a good file, dangling symlink, a valid feed encoded header-last, valid feeds ending in the bytes 0x0A / 0x0D, symlink to itself (ELOOP), unix socket (ENXIO)} to the names 10, 9, B, a, é (thorough: all 19 kinds on 5 names; quick: 13 kinds on the first 4 names) - x 2 creation orders, on a real temporary directory; plus every 4-subset of 22 file names (byte order differing from extension-less / natural / case-insensitive order; names that are not valid UTF-8, contain a newline, start with a blank, a dot or a dash, contain '..' or brackets, are 240 bytes long), the subsets containing the first name also inside directories named feeds[2024] / snap[1]*? / back\\slash .. next to a sibling such a pattern would match; plus runs of 1..520 bad entries in a row before / between / after good files; good files in a non-canonical field order (header last) and ending in the bytes 0x0A / 0x0D; plus 3-name directories replayed while the wall clock jumps 2 s before chosen Next calls (the source reports progress once per second); plus directories in which one of three good files is 70 KiB / 1 MiB / 4 MiB / 17 MiB large, at each position; " +
 			"non-trivial = distinct directories with >= 2 entries; oracle = independent parses of the readable, parseable entries in byte order of their names, nil afterwards, and equality of the journals",
 		Assumptions: []string{"unreadable means: is a directory or no longer exists (the checks run as root, so permission faults cannot be produced)", "whether a damaged file still 'parses as GTFS-realtime' is decided independently of the library, by strictly decoding its bytes as a FeedMessage"},
 		Scenarios: func(tier string) []*Scenario {
